@@ -33,7 +33,7 @@ def run(fam, ctx, fr, model_available=True, scs=None):
             fr.violations.append({'scenario': sc, 'impl': oi, 'what': what, 'signature': tag})
         if om is not None:
             fr.programs += 1; fr.traces_validated += 1
-            if om != oi:
+            if om != (fam.strip(oi) if hasattr(fam, 'strip') else oi):
                 fr.disagreements.append({'scenario': sc, 'impl': oi, 'model': om})
     fr.rule = fam.RULE
     fr.samples += [{'scenario': scs[-1], 'impl': im[-1]}]
